@@ -1060,6 +1060,11 @@ def check_C09(tier, seed):
                 evs.append(dict(drain_ev(k + 1, eqto=1 if k else 0), ambient=amb))
             else:
                 evs.append({"op": op, "qi": k + 1, "ambient": amb})
+        if op == "drain":
+            # iterator created and advanced outside a block, continued inside one
+            for amb in ("query", "rule"):
+                qs.append(copy.deepcopy(q))
+                evs.append(dict(drain_ev(len(qs), eqto=1), ambient=amb, split=rng.randint(0, 2)))
         qc.add(W, qs, evs)
 
     for nv in (1, 2):
